@@ -875,11 +875,43 @@ def read_real_pages(data):
 def gen_new_pages(rng, old_pages):
     """new pages for OggPage.replace, numbered and flagged by `the caller` -> (pages, how)"""
     from mutagen.ogg import OggPage
-    how = rng.choice(["from_packets", "from_packets", "from_packets-small-pages", "preserve", "handmade", "handmade", "none"])
+    how = rng.choice(["from_packets", "from_packets", "from_packets-small-pages", "preserve", "handmade", "handmade", "none",
+                      "same-bytes-other-count"])
     try:
         packets = OggPage.to_packets(old_pages) if old_pages else []
     except Exception:
         packets = [b"x"]
+    if how == "same-bytes-other-count":
+        # another number of pages that render to exactly as many bytes as the old run (nothing behind them moves, yet
+        # the later pages of the stream have to be renumbered)
+        total = sum(len(p.write()) for p in old_pages) if old_pages else 0
+        m = len(old_pages) - 1 if len(old_pages) >= 2 else 2
+
+        def packet_len_for(size):
+            for L in range(max(0, size - 28 - size // 255 - 2), max(0, size - 27)):
+                if 28 + L // 255 + L == size and (L % 255 != 0 or L == 0):
+                    return L
+            return None
+        built = None
+        for first in (10, 11, 12, 40):
+            rest = total - (m - 1) * (28 + first)
+            L = packet_len_for(rest) if rest > 28 else None
+            if old_pages and L is not None:
+                built = [first] * (m - 1) + [L]
+                break
+        if built is None:
+            how = "from_packets"
+        else:
+            pages = []
+            for L in built:
+                p = OggPage()
+                p.packets = [rbytes(rng, L)]
+                p.complete = True
+                p.serial = old_pages[0].serial
+                p.sequence = rng.choice([0, old_pages[0].sequence])
+                pages.append(p)
+            assert sum(len(p.write()) for p in pages) == total
+            return pages, how
     if how == "none":
         return [], how
     if how == "preserve" and old_pages:
